@@ -42,6 +42,7 @@ func checkC05(c *Ctx) {
 		c05Quoting(c, p, m, mr)
 		valueFidelity(c, p, m, mr, "R05.8")
 		messageIdentity(c, p, "R05.10")
+		messageEmittedAsIs(c, p, m, mr, "R05.10")
 		dedupeEquality(c, p, m, "R05.9")
 		c08Stores(c, p, m)
 		newlineRule(c, p, mr, "R05.4", map[string]string{"PrintCtx.End": "the record terminator of End(true)", "PrintCtx.EndArray": "EndArray(newline) for user marshallers", "Entry.printImpl": "blank-line shortcut"})
@@ -301,6 +302,41 @@ func c05Quoting(c *Ctx, p *Prog, m *Model, mr *ModeReach) {
 				default:
 					probs = append(probs, "appends "+a.String()+" at "+p.Pos(instrPos(call)))
 				}
+			}
+		}
+	}
+	// the one-byte escape is written only for ONE undecodable byte: its block is entered only when the decoder returned
+	// width 1 together with RuneError (a valid U+FFFD has width 3; escaping its first byte and advancing by 3 loses two bytes)
+	for _, b := range aqw.Blocks {
+		for _, in := range b.Instrs {
+			call, ok := in.(*ssa.Call)
+			if !ok || !isBuiltinCall(call, "append") || len(call.Common().Args) < 2 {
+				continue
+			}
+			if sx, ok := constString(stripNoIface(call.Common().Args[1])); !ok || sx != `\x` {
+				continue
+			}
+			w1, rErr := false, false
+			for _, g := range guardsOf(b) {
+				cond, neg := normCond(g.If.Cond)
+				bo, ok := cond.(*ssa.BinOp)
+				if !ok {
+					continue
+				}
+				taken := (g.Succ == 0) != neg
+				k, isC := constInt(bo.Y)
+				if !isC || !((bo.Op == token.EQL && taken) || (bo.Op == token.NEQ && !taken)) {
+					continue
+				}
+				if k == 1 && intBits(bo.X.Type()) > 0 {
+					w1 = true
+				}
+				if k == 0xFFFD {
+					rErr = true
+				}
+			}
+			if !w1 || !rErr {
+				probs = append(probs, fmt.Sprintf("the \\xHH escape at %s is not restricted to a decoding of width 1 that gave RuneError (width test %v, RuneError test %v): a valid multi-byte rune is then replaced by the escape of its first byte", p.Pos(instrPos(call)), w1, rErr))
 			}
 		}
 	}
